@@ -262,6 +262,7 @@ def run_all(mod, ctx, prop):
     ctx.each(argument_use_rule, ctx, ctx.repo, "R%su" % prop[1:], mods, "A dropped argument in one of this property's anchor modules changes what the caller asked for without any error.")
     ctx.each(ctor_forwarding_rule, ctx, ctx.repo, "R%sv" % prop[1:], mods)
     ctx.each(per_key_alias_rule, ctx, ctx.repo, "R%sw" % prop[1:], mods)
+    ctx.each(loop_carried_rule, ctx, ctx.repo, "R%sx" % prop[1:], mods)
 
 
 def _names(e):
@@ -323,3 +324,75 @@ def per_key_alias_rule(ctx, repo, rule_id, modules):
     ctx.note(rule_id, "%d per-key stores inside loops inspected" % n)
     if n:
         ctx.ok(rule_id, "%s" % ", ".join(modules), "%d per-key stores inside loops hold a per-iteration value" % n)
+
+
+def loop_carried(repo, fi):
+    """(var, loop, read) for plain locals whose value at a read inside a loop body may come from a previous iteration
+    (a definition inside the body reaches the loop header, and a definition from outside the body still reaches the read,
+    i.e. some path through this iteration does not assign it).  Loop / comprehension targets and augmented accumulators
+    (x += ...) are excluded."""
+    from . import common as K
+
+    loops = [l for l in own_nodes(fi.node) if isinstance(l, (ast.For, ast.While))]
+    if not loops:
+        return []
+    targets = set()
+    for n in ast.walk(fi.node):
+        if isinstance(n, (ast.For, ast.comprehension)):
+            targets |= _names(n.target)
+        elif isinstance(n, (ast.With,)):
+            for it in n.items:
+                if it.optional_vars is not None:
+                    targets |= _names(it.optional_vars)
+    aug = {s.target.id for s in ast.walk(fi.node) if isinstance(s, ast.AugAssign) and isinstance(s.target, ast.Name)}
+    rd = K.rdefs(repo, fi)
+    out = []
+    for loop in loops:
+        inside = set()
+        for s in loop.body:
+            for x in ast.walk(s):
+                inside.add(id(x))
+
+        def in_loop(d):
+            st = rd.def_stmt(d)
+            return st is not None and id(st) in inside
+
+        seen = set()
+        for r in ast.walk(loop):
+            if not (isinstance(r, ast.Name) and isinstance(r.ctx, ast.Load) and id(r) in inside):
+                continue
+            v = r.id
+            if v in seen or v in targets or v in aug or v in fi.params:
+                continue
+            hdr = rd.reaching_at_stmt(loop, v)
+            if not any(in_loop(d) for d in hdr):
+                continue
+            S = enclosing_stmt(r)
+            at = rd.reaching_at_stmt(S, v)
+            if not any(not in_loop(d) for d in at):
+                continue
+            seen.add(v)
+            out.append((v, loop, r))
+    return out
+
+
+def loop_carried_rule(ctx, repo, rule_id, modules):
+    ctx.rule(rule_id, "no value leaks from one loop iteration into the next: a plain local that is assigned inside a loop body on some paths only, and read in the body, must be reset in every iteration - unless it is one of the variables confirmed by reading to be carried on purpose (row counters, buffers, first-item flags; rules/tables/loop_carried.json). A reader that stops resetting an optional field per row gives a row the value of the row before it")
+    table = json.load(open(os.path.join(TABLES, "loop_carried.json")))
+    n = 0
+    for mod in modules:
+        m = repo.module(mod)
+        allowed = {tuple(x) for x in table.get(mod, [])}
+        for fi in m.all_functions():
+            try:
+                hits = loop_carried(repo, fi)
+            except Exception:
+                continue  # a function whose CFG cannot be built is reported by the rules that anchor on it
+            n += 1
+            for v, loop, r in hits:
+                if (fi.qualname, v) in allowed:
+                    continue
+                ctx.fail(rule_id, fi, enclosing_stmt(r), "`%s` read at line %d inside the loop `%s` can still hold the value assigned in a previous iteration (it is only assigned on some paths of the body and not reset per iteration): one item's value leaks into the next" % (v, r.lineno, ("for %s in %s" % (ast.unparse(loop.target), ast.unparse(loop.iter))[:60]) if isinstance(loop, ast.For) else "while ..."), stmt_text="carried:%s" % v)
+    ctx.note(rule_id, "%d functions with loops inspected" % n)
+    if n:
+        ctx.ok(rule_id, ", ".join(modules), "no new loop-carried local in %d functions" % n)
